@@ -724,7 +724,9 @@ class Combiner(Node):
                 self._update_worker_occupancy(action="ADD")
                 self.stats["processing_delay"].append(next_processing_time)  # Update the processing delay in stats
                 print(f"T={self.env.now:.2f}: {self.id} worker started processing item {self.item_in_process.id} ")
-                self.check_thread_state_and_update_combiner_state()  # Check and update the combiner state based on worker states
+                # the pallet is processed here, before its worker process exists, so the worker-based state
+                # check would report IDLE_STATE for the whole processing delay
+                self.update_state("PROCESSING_STATE", self.env.now)
                 processing_start_time = self.env.now
                 #wait for processing_delay amount of time
                 yield self.env.timeout(next_processing_time)
